@@ -116,7 +116,10 @@ def gen_pose(rng, stream, malformed=False):
     else:
         M[:3, :3] = rand_rot(rng)
         M[:3, 3] = np.array([rng.uniform(-1, 1) for _ in range(3)]) * 10 ** rng.uniform(-1, 3)
-    kind = rng.choice(["fresh", "stack", "stack", "tm"])
+    # "reuse": one 4x4 buffer per case, overwritten in place before every update_pose (a caller that keeps a
+    # pose buffer); the collider may keep a reference to it, so an "unchanged pose" shortcut comparing against
+    # the stored reference would compare the buffer with itself
+    kind = rng.choice(["fresh", "stack", "stack", "tm", "reuse"])
     if malformed and rng.random() < 0.6:
         kind = rng.choice(["fortran", "strided"])
     return {"M": M.tolist(), "kind": kind}
@@ -255,11 +258,15 @@ class PoseSource:
         st = [p["M"] for p in mats if p["kind"] == "stack"]
         self.stack = np.array(st, dtype=float).reshape(-1, 4, 4) if st else None
         self.k = 0
+        self.buf = np.eye(4)
 
     def get(self, p):
         M = np.array(p["M"], dtype=float)
         if p["kind"] == "fresh":
             return M
+        if p["kind"] == "reuse":
+            self.buf[...] = M
+            return self.buf
         if p["kind"] == "stack":
             a = self.stack[self.k]
             self.k += 1
@@ -574,7 +581,7 @@ def enc_shape(s):
             + [str(int(i)) for t in T for i in t])
 
 
-POSE_LAY = {"fresh": "C", "stack": "C", "tm": "C", "fortran": "F", "strided": "A"}
+POSE_LAY = {"fresh": "C", "stack": "C", "tm": "C", "fortran": "F", "strided": "A", "reuse": "C"}
 
 
 def enc_case(case, res, engine, variant="now"):
